@@ -160,6 +160,18 @@ def eigh(a):
                 Qs = np.array([[Q[0, 1], Q[0, 0]], [Q[1, 1], Q[1, 0]]], dtype=object)
                 return np.array([ws[1], ws[0]], dtype=object), Qs
         EIGH_LOG["generic"] += 1
+        # functional consistency: the same input (normal forms) gets the same decomposition
+        memo = ctx.data.setdefault("eigh_memo", [])
+        if memo:
+            from .canon import Canon
+            cn = Canon()
+            cn.learn_rules(ctx.side + ctx.extra)
+            for (k00, k10, k11, res) in memo:
+                try:
+                    if _same(cn, a00, k00) and _same(cn, a10, k10) and _same(cn, a11, k11):
+                        return res[0].copy(), res[1].copy()
+                except (ValueError, ZeroDivisionError):
+                    pass
         w0, w1 = ctx.fresh("eigval"), ctx.fresh("eigval")
         c, s = ctx.fresh("eigc"), ctx.fresh("eigs")
         # v = [[c, -s], [s, c]] rotation; a = v diag(w) v^T
@@ -170,8 +182,10 @@ def eigh(a):
         ctx.add_side(a10 == c * s * (w0 - w1))
         ctx.add_side(w0 + w1 == a00 + a11)
         ctx.add_side(w0 * w1 == a00 * a11 - a10 * a10)
-        return (np.array([SV(w0), SV(w1)], dtype=object),
-                np.array([[SV(c), SV(-s)], [SV(s), SV(c)]], dtype=object))
+        res = (np.array([SV(w0), SV(w1)], dtype=object),
+               np.array([[SV(c), SV(-s)], [SV(s), SV(c)]], dtype=object))
+        memo.append((a00, a10, a11, res))
+        return res[0].copy(), res[1].copy()
     raise NotImplementedError("eigh stub: size > 2")
 
 
